@@ -72,6 +72,9 @@ pub enum Action {
     /// close the handle, try to open the file with another page size (must be refused, by an error or
     /// the documented panic, without touching the file), open it again with its own page size
     OpenWrongPagesize(u64),
+    /// a read-only transaction is opened and the code using it panics (the panic is caught, as a
+    /// worker thread's would be): the transaction is dropped while unwinding and must be closed then
+    PanicWithReader,
     /// with the handle closed: both headers are rewritten in the legacy (<= 0.10) format (same fields,
     /// SHA3 checksum), as a file last written by such a release carries them; then reopened
     LegacyHeaders,
@@ -104,6 +107,7 @@ impl Action {
             Action::TearOtherSlot => json!("tear-other-header-slot"),
             Action::PinnedLayout => json!("headers-into-pinned-slots"),
             Action::LegacyHeaders => json!("headers-into-legacy-format"),
+            Action::PanicWithReader => json!("panic-while-a-reader-is-open"),
             Action::LeakFreePage => json!("drop-last-id-from-free-list"),
             Action::OpenWrongPagesize(ps) => json!({"open-with-pagesize": ps}),
             Action::ReopenNumPages(np) => json!({"reopen-with-num-pages": np}),
@@ -119,6 +123,7 @@ impl Action {
                 "tear-other-header-slot" => Action::TearOtherSlot,
                 "headers-into-pinned-slots" => Action::PinnedLayout,
                 "headers-into-legacy-format" => Action::LegacyHeaders,
+                "panic-while-a-reader-is-open" => Action::PanicWithReader,
                 "drop-last-id-from-free-list" => Action::LeakFreePage,
                 "open-reader" => Action::OpenReader,
                 "ro-commit" => Action::RoCommit,
@@ -965,6 +970,18 @@ impl Runner {
                         self.poisoned = true;
                         return out;
                     }
+                }
+                self.check_committed_state(or, &what, &mut out);
+            }
+            Action::PanicWithReader => {
+                let db = self.db_static();
+                let r = guarded(|| {
+                    let tx = db.tx(false).expect("read-only begin");
+                    let _ = real::dump_tx(&tx);
+                    panic!("client code fails while it holds a read-only transaction");
+                });
+                if r.is_ok() {
+                    out.push(Violation::new("harness", "the panicking reader did not panic"));
                 }
                 self.check_committed_state(or, &what, &mut out);
             }
